@@ -232,6 +232,8 @@ func namedOf(t types.Type) *types.Named {
 		switch tt := t.(type) {
 		case *types.Pointer:
 			t = tt.Elem()
+		case *types.Alias:
+			t = types.Unalias(tt)
 		case *types.Named:
 			return tt
 		default:
